@@ -206,6 +206,33 @@ func main() {
 	for i, in := range hx.ReadInputs(o.Input) {
 		hx.Emit(fmt.Sprintf("c%d", i), in, run(in))
 	}
+	// exhaustive corner grid: every operator on every ordered pair of the values where the
+	// small/big representation changes (added after seeded defect C06a: MinSmallInt * -1)
+	{
+		two63 := new(big.Int).Lsh(big.NewInt(1), 63)
+		two64 := new(big.Int).Lsh(big.NewInt(1), 64)
+		var corners []*big.Int
+		for _, base := range []*big.Int{big.NewInt(0), two63, two64, big.NewInt(1 << 31), big.NewInt(1 << 32)} {
+			for d := int64(-2); d <= 2; d++ {
+				v := new(big.Int).Add(base, big.NewInt(d))
+				corners = append(corners, v, new(big.Int).Neg(v))
+			}
+		}
+		k := 0
+		for _, a := range corners {
+			for _, b := range corners {
+				for _, grp := range [][]string{arith, cmps, bits} {
+					for _, op := range grp {
+						for _, suffix := range []string{"", ".i"} {
+							in := fmt.Sprintf("%s%s %s %s %s %s", op, suffix, reprOf(a), a, reprOf(b), b)
+							hx.Emit(fmt.Sprintf("x%d", k), in, run(in))
+							k++
+						}
+					}
+				}
+			}
+		}
+	}
 	r := hx.NewRng(o.Seed)
 	for i := 0; i < o.N; i++ {
 		var a, b *big.Int
